@@ -243,6 +243,10 @@ class LazyRef:
         elif op in ('map', 'frag', 'parmap', 'nonemap', 'cache', 'copy', 'items', 'batch_map'):
             (c, cp), = self.kids(node, path)
             self.probe(c, cp, j)
+        elif op == 'zip':
+            # a zip asks its members in order; the first one already refuses (all have the same length)
+            c, cp = self.kids(node, path)[0]
+            self.probe(c, cp, j)
         # selections, concatenations, sources: the IndexError comes from index arithmetic, nothing is evaluated
 
     def getkey(self, node, path, k):
